@@ -80,8 +80,8 @@ impl Resources {
 //@fn src/domain.rs Resources::extend
 //@contract
     ensures
-        /*[C13.extend]*/ final(self).files@ == old(self).files@ + other.files@,
-        /*[C13.extend]*/ final(self).cmds@ == old(self).cmds@ + other.cmds@,
+        /*[C13.extend,C02.inherited,C03.inherited]*/ final(self).files@ == old(self).files@ + other.files@,
+        /*[C13.extend,C02.inherited,C03.inherited]*/ final(self).cmds@ == old(self).cmds@ + other.cmds@,
 //@after 0 `self.files.extend_from_slice(&other.files);`
         proof { assert(self.files@ =~= old(self).files@ + other.files@); }
 //@after 0 `self.cmds.extend_from_slice(&other.cmds);`
@@ -130,7 +130,7 @@ impl Target {
 //@contract
     ensures
         final(self).same_but_deps_input(old(self)), final(self).inp() == old(self).inp(),
-        /*[C01.outdep,C13.dep]*/ final(self).meta().dependencies@ == old(self).meta().dependencies@ + additional_dependencies@,
+        /*[C01.outdep,C13.dep,C07.blocked]*/ final(self).meta().dependencies@ == old(self).meta().dependencies@ + additional_dependencies@,
 //@after 0 `metadata`
         proof { assert(metadata.dependencies@ =~= old(self).meta().dependencies@ + additional_dependencies@); }
 //@end
@@ -138,7 +138,7 @@ impl Target {
 //@contract
     ensures
         final(self).same_but_deps_input(old(self)), final(self).meta().dependencies == old(self).meta().dependencies,
-        /*[C13.inherit]*/ r is Ok ==> old(self).inp() is Some && final(self).inp() is Some
+        /*[C13.inherit,C02.inherited,C03.inherited]*/ r is Ok ==> old(self).inp() is Some && final(self).inp() is Some
             && final(self).inp()->Some_0.files@ == old(self).inp()->Some_0.files@ + resources.files@
             && final(self).inp()->Some_0.cmds@ == old(self).inp()->Some_0.cmds@ + resources.cmds@,
         r is Err ==> *final(self) == *old(self) && *old(self) is Aggregate,
@@ -885,7 +885,7 @@ pub proof fn lemma_shrinks_trans(a: &Config, b: &Config, c: &Config)
                 targets_chain@ == parent_targets@.push(target_id),
                 chain_untouched(dt0, dt1, targets_chain@),
                 new_keys_reached(dt0, dt1, deps_all, deps_all.len() as int),
-                /*[C13.inherit]*/ dependencies_from_input@.len() > 0 ==> target.inp() is Some
+                /*[C13.inherit,C02.inherited,C03.inherited]*/ dependencies_from_input@.len() > 0 ==> target.inp() is Some
                     && target.inp()->Some_0.files@ == inherited_files(files0, dependencies_from_input@, dt1, it2.index@ as int)
                     && target.inp()->Some_0.cmds@ == inherited_cmds(cmds0, dependencies_from_input@, dt1, it2.index@ as int),
                 /*[C09.output-kind]*/ forall|j: int| #![trigger dependencies_from_input@[j]] 0 <= j < it2.index@ ==> domain_targets@[dependencies_from_input@[j]] is Build,
@@ -928,10 +928,10 @@ pub proof fn lemma_shrinks_trans(a: &Config, b: &Config, c: &Config)
                 }
             }
             proof {
-                assert(/*[C01.outdep,C13.dep]*/ forall|j: int| 0 <= j < refs.len() ==> target.meta().dependencies@.contains(#[trigger] refs[j]));
+                assert(/*[C01.outdep,C13.dep,C07.blocked]*/ forall|j: int| 0 <= j < refs.len() ==> target.meta().dependencies@.contains(#[trigger] refs[j]));
                 assert(/*[C09.output-kind]*/ forall|j: int| 0 <= j < refs.len() ==> domain_targets@.contains_key(refs[j]) && domain_targets@[#[trigger] refs[j]] is Build);
-                assert(/*[C13.inherit]*/ refs.len() > 0 ==> target.inp() is Some && target.inp()->Some_0.files@ == inherited_files(files0, refs, domain_targets@, refs.len() as int));
-                assert(/*[C13.inherit]*/ refs.len() > 0 ==> target.inp() is Some && target.inp()->Some_0.cmds@ == inherited_cmds(cmds0, refs, domain_targets@, refs.len() as int));
+                assert(/*[C13.inherit,C02.inherited,C03.inherited]*/ refs.len() > 0 ==> target.inp() is Some && target.inp()->Some_0.files@ == inherited_files(files0, refs, domain_targets@, refs.len() as int));
+                assert(/*[C13.inherit,C02.inherited,C03.inherited]*/ refs.len() > 0 ==> target.inp() is Some && target.inp()->Some_0.cmds@ == inherited_cmds(cmds0, refs, domain_targets@, refs.len() as int));
             }
 //@end
 
